@@ -480,7 +480,7 @@ def restrict(ts, T, inverse):
     return [t for t in ts if (t[0][0] == "I" and t[0][1] in T) or (inverse and t[2][0] == "I" and t[2][1] in T)]
 
 
-def root_causes(ts, mode, cfg, limit, T):
+def root_causes(ts, mode, cfg, limit, T, flip=False):
     tau = cfg["tau"]
     rcs = set()
     if any(not in_domain_literal(o) for _, _, o in ts) or any(p == tau and o[0] == "L" for _, p, o in ts):
@@ -493,6 +493,8 @@ def root_causes(ts, mode, cfg, limit, T):
         rcs.add("rc_cap_zero")
     if mode[0] == "all" and not any(p == tau for _, p, _ in ts):
         rcs.add("rc_no_class")
+    if flip and mode[0] != "map" and (limit >= 0 or cfg["cap"] > 0):
+        rcs.add("rc_limit_two_selects")     # the endpoint lists the instances in another order the second time
     return rcs
 
 
@@ -639,7 +641,7 @@ def _run_case(case):
         else:
             local_T = run_local(gT, mode, cfg)
     fails, nitems = oracle(case, runs, local, local_T)
-    rcs = sorted(root_causes(ts, mode, cfg, limit, T))
+    rcs = sorted(root_causes(ts, mode, cfg, limit, T, case.get("flip", False)))
     res = {"fails": fails, "rcs": rcs, "nitems": nitems, "note": note, "corr": [], "unmodelled": 0,
            "monitor": runs[True]["monitor"] + runs[False]["monitor"], "vm": [],
            "syntactic_domain": syntactic_domain(ts, cfg["tau"]),
